@@ -236,11 +236,21 @@ func (j *Join) ParallelJoinFunc(l, r *HashedTable) ([]any, error) {
 	var mut sync.Mutex
 	var wg sync.WaitGroup
 	slice := make([]any, 0)
+	var failure error
 
 	for lk, lv := range l.Keys {
 		wg.Add(1)
 		go func(lk string, lv *map[string]any) {
 			defer wg.Done()
+			defer func() {
+				if r := recover(); r != nil {
+					mut.Lock()
+					if failure == nil {
+						failure = fmt.Errorf("%v", r)
+					}
+					mut.Unlock()
+				}
+			}()
 			switch ok, matches, err := j.JoinMatchFunc(lk, lv, l, r); {
 			case ok:
 				{
@@ -250,7 +260,12 @@ func (j *Join) ParallelJoinFunc(l, r *HashedTable) ([]any, error) {
 				}
 			case !ok && err != nil:
 				{
-					panic(err)
+					// reported to the caller: a panic in this goroutine would end the process
+					mut.Lock()
+					if failure == nil {
+						failure = err
+					}
+					mut.Unlock()
 				}
 			default:
 				{
@@ -260,6 +275,9 @@ func (j *Join) ParallelJoinFunc(l, r *HashedTable) ([]any, error) {
 		}(lk, lv)
 	}
 	wg.Wait()
+	if failure != nil {
+		return nil, failure
+	}
 	return slice, nil
 }
 
@@ -325,10 +343,20 @@ func (j *Join) ParallelHashJoinFunc(l, r *HashedTable) ([]any, error) {
 	var mut sync.Mutex
 	var wg sync.WaitGroup
 	slice := make([]any, 0)
+	var failure error
 	for lk := range l.Rows {
 		wg.Add(1)
 		go func(lk string) {
 			defer wg.Done()
+			defer func() {
+				if r := recover(); r != nil {
+					mut.Lock()
+					if failure == nil {
+						failure = fmt.Errorf("%v", r)
+					}
+					mut.Unlock()
+				}
+			}()
 			switch ok, matches, err := j.HashJoinMatchFunc(lk, l, r); {
 			case ok:
 				{
@@ -338,7 +366,12 @@ func (j *Join) ParallelHashJoinFunc(l, r *HashedTable) ([]any, error) {
 				}
 			case !ok && err != nil:
 				{
-					panic(err)
+					// reported to the caller: a panic in this goroutine would end the process
+					mut.Lock()
+					if failure == nil {
+						failure = err
+					}
+					mut.Unlock()
 				}
 			default:
 				{
@@ -348,6 +381,9 @@ func (j *Join) ParallelHashJoinFunc(l, r *HashedTable) ([]any, error) {
 		}(lk)
 	}
 	wg.Wait()
+	if failure != nil {
+		return nil, failure
+	}
 	return slice, nil
 }
 
